@@ -166,9 +166,10 @@ def gen_integrate_probe(seed):
 def cases(opts):
     base = exprs(opts, None)
     probe = st.integers(0, 2**40).map(robust_gen(lambda s: gen_capture_probe(SeedSource(s), opts)))
-    # one_of flattens nested one_ofs: _cases contributes six equally weighted branches, so the probe is listed four
-    # times to make up 40 % of the cases
-    return st.one_of(_cases(opts), probe, probe, probe, probe)
+    # one_of flattens nested one_ofs: _cases contributes four distinct branches (structured / seeded expressions, two
+    # self-substitution generators), so three probe wrappers make up about 40 % of the cases
+    # (repeated occurrences of one strategy object count once in st.one_of: distinct wrappers carry the weight)
+    return st.one_of(_cases(opts), *[probe.map(lambda c, _i=i: c) for i in range(3)])
 
 
 def _cases(opts):
@@ -179,7 +180,7 @@ def _cases(opts):
         return gen_self_subst(HypSource(draw), opts)
 
     seeded_self = st.integers(0, 2**40).map(robust_gen(lambda s: gen_self_subst(SeedSource(s), opts)))
-    return st.one_of(base, base, base, base, seeded_self, _selfs())
+    return st.one_of(base, base, base, seeded_self, seeded_self, _selfs())
 
 
 class C05(Prop):
@@ -195,7 +196,7 @@ class C05(Prop):
         "oracle binds lexically (environment extension), so capture shows as a different value",
         "the MarkovProduct binder has its own family (names of the pairs and of time varied over one data set, capture by a later substitution); Scatter is exercised by the C11 engine",
     )
-    cases = {"quick": 4500, "thorough": 100000}
+    cases = {"quick": 9000, "thorough": 100000}
 
     def strategy(self, tier):
         d = 3 if tier == "quick" else 4
@@ -204,7 +205,7 @@ class C05(Prop):
         pm = cases(Opts(max_depth=2, max_names=3, binders_extra=True, reals=True, deltas=True, consts=True))
         ib = cases(Opts(max_depth=2, max_names=3, binders_extra=True, integrate_weight=12))  # Integrate over variables one of its fields lacks
         ip = st.integers(0, 2**40).map(robust_gen(gen_integrate_probe))
-        main = st.tuples(st.one_of(a, a, b, pm, ib, ip), st.sampled_from(MODES)).map(lambda t: {"ast": t[0], "mode": t[1]})
+        main = st.tuples(st.one_of(a, a, a, b, b, pm, ib, ip), st.sampled_from(MODES)).map(lambda t: {"ast": t[0], "mode": t[1]})
         # histories: a lazy binder, then N unrelated binders with their own names, then a substitution whose value has a
         # free input named like the binder and a second binder re-using the name (the fresh-name supply must never reissue a name)
         hist = st.tuples(st.sampled_from(["i", "j", "a"]), st.sampled_from(["i", "j", "b"]), st.sampled_from([0, 1, 7, 40, 130, 150, 260, 400]),
@@ -225,7 +226,9 @@ class C05(Prop):
         sc = st.tuples(st.sampled_from(["k", "n", "i", "zb"]), st.sampled_from(["diag", "diag", "rename", "index", "diag_index"]), st.sampled_from(["lazy", "reflect", "eager-lazy-source", "eager"]),
                        st.integers(0, 9972), st.booleans()).map(
             lambda t: {"scatter": {"binder": t[0], "shape": t[1], "style": t[2], "a": t[3], "batch": t[4]}, "ast": ("num", 0.0, "real"), "mode": "eager"})
-        return st.one_of(main, main, main, main, main, main, main, main, main, main, main, hist, fac, mk, sc)
+        # (st.one_of drops repeated occurrences of one strategy object, so weights need distinct objects)
+        mains = [main.map(lambda c, _i=i: c) for i in range(6)]
+        return st.one_of(*mains, hist, fac, mk, sc)
 
     # open known finding: lazily built Approximate leaks mangled names
     known_predicates = {
